@@ -271,7 +271,9 @@ func hostileSTL(t *rapid.T, doc []byte) []byte {
 		case 6:
 			set(236, rapid.SampledFrom([]string{"xx", " 1", "-1"}).Draw(t, "rn"))
 		case 7:
-			set(238, rapid.SampledFrom([]string{"xxxxx", "    1", "99999"}).Draw(t, "tnb"))
+			set(238, rapid.SampledFrom([]string{"xxxxx", "    1", "99999", "   -1", "-9999"}).Draw(t, "tnb"))
+			set(243, rapid.SampledFrom([]string{"xxxxx", "    1", "99999", "   -1", "-9999", "     "}).Draw(t, "tns"))
+			set(248, rapid.SampledFrom([]string{"xxx", " -1", "999", "   "}).Draw(t, "tng"))
 		case 8:
 			set(251, rapid.SampledFrom([]string{"xx", "-1", "  "}).Draw(t, "mnc"))
 			set(253, rapid.SampledFrom([]string{"xx", "00", "  "}).Draw(t, "mnr"))
